@@ -144,10 +144,14 @@ def program_of(evs):
     return None
 
 
-def judge_trace(ctx, trace, source, kd, max_events=12000):
+def judge_only(ctx, trace, kd, max_events=12000):
     cfg = ctx.path("t_pathcache.cfg")
-    lib.write_cfg(cfg, {"KnownDeviations": lib.tla_set(kd)}, "TInit", "TNext", invariants=["Done"])
-    v = lib.judge(ctx, MODULE_T, cfg, trace, max_events=max_events)
+    if not os.path.exists(cfg):
+        lib.write_cfg(cfg, {"KnownDeviations": lib.tla_set(kd)}, "TInit", "TNext", invariants=["Done"])
+    return lib.judge(ctx, MODULE_T, cfg, trace, max_events=max_events)
+
+
+def classify(ctx, v, trace, source):
     listed = {}
     for _, fid in v["deviations"]:
         listed[fid] = listed.get(fid, 0) + 1
@@ -161,6 +165,10 @@ def judge_trace(ctx, trace, source, kd, max_events=12000):
             lib.note_known(ctx, i, extra)
             ctx.cov["deviations_observed"][i] = ctx.cov["deviations_observed"].get(i, 0) + extra
     return v
+
+
+def judge_trace(ctx, trace, source, kd, max_events=12000):
+    return classify(ctx, judge_only(ctx, trace, kd, max_events), trace, source)
 
 
 def time_coverage(ctx, trace):
@@ -342,6 +350,7 @@ def run(ctx):
     lib.build([DRV])
     if ctx.replay:
         return replay(ctx, kd)
+    lib.write_cfg(ctx.path("t_pathcache.cfg"), {"KnownDeviations": lib.tla_set(kd)}, "TInit", "TNext", invariants=["Done"])
     insts = plan(ctx.quick)
     only = set(filter(None, os.environ.get("X12_ONLY", "").split(",")))      # development aid: a subset of the families
     if only:
@@ -366,6 +375,9 @@ def run(ctx):
             raise lib.ToolError(f"a wrong / code-shaped machine is no longer refuted by the model: {pins}")
         if not all(expl.values()):
             raise lib.ToolError(f"a code-shaped machine is not explained by its listed deviations: {expl}")
+    # the random trace is judged in the background while the enumerated programs run (verdicts are classified on the main thread)
+    bg = ThreadPoolExecutor(max_workers=1)
+    frand = bg.submit(judge_only, ctx, rtrace, kd)
     total = 0
     distinct = 0
     sleepy = ctx.path("prog_sleepy.ndjson")     # programs that pause: many shards (they wait, they do not compute)
@@ -413,7 +425,8 @@ def run(ctx):
     ctx.stage("run", source="random", programs=d.get("programs"), events=d.get("events"), wall_s=d["wall_s"])
     _, dr = lib.count_distinct(dump)
     time_coverage(ctx, rtrace)
-    judge_trace(ctx, rtrace, f"random seed={ctx.seed}", kd)
+    classify(ctx, frand.result(), rtrace, f"random seed={ctx.seed}")
+    bg.shutdown()
     total += nrand
     distinct += dr
     ctx.cov["traces_validated_against_impl"] = total
